@@ -78,7 +78,7 @@ func genC17(ctx *Ctx) {
 	bounds := []int64{0, 'a', 0xFF, 0x100, 0x101, 0x2000, 0xFFFE}
 	var probes sx.List
 	seen := map[int64]bool{}
-	for _, b := range append(append([]int64{}, bounds...), 0xFFFF, 0x10000, 0x1F600) {
+	for _, b := range append(append([]int64{}, bounds...), 0xFFFF, 0x10000, 0x1F600, 0xD800, 0xDBFF, 0xDFFF) { // (the surrogate block lies inside the configurable range: a map is a map of code points)
 		for _, d := range []int64{-1, 0, 1} {
 			if !seen[b+d] {
 				seen[b+d] = true
